@@ -96,6 +96,74 @@ def vc_task(task):
     return res
 
 
+def monotone_task(task):
+    """(lemma used by C12) adding a card to the hole or to the board never weakens the evaluated hand: the real from_game is run on
+    (hole, board) and on the richer pair with the SAME validity / strength symbols per card set"""
+    import time
+    src = source(EXTRA)
+    if 'functools' not in src.modules:
+        src.load('functools')
+    import pokerkit.hands as H
+    import pokerkit.lookups as L
+    import contracts.c05 as c05
+    from pyvc.interp import Interp
+    from pyvc.core import Ctx
+    from pyvc.values import And_, Not_, Or_
+    from pyvc.vc import Obligation, discharge
+    from pyvc import models
+    name, h, b, extra = task['cls'], task['h'], task['b'], task['extra']
+    cls = getattr(H, name)
+    valid, index = {}, {}
+
+    def init_cut(I, ctx, fn, args, kwargs, node):
+        self_ref, cards = args[0], args[1]
+        seq = (cards,) if isinstance(cards, int) else tuple(models.to_seq(I, ctx, cards))
+        k = frozenset(seq)
+        if k not in valid:
+            valid[k] = z3.Bool('valid{' + ','.join(map(str, sorted(k))) + '}')
+            index[k] = z3.Int('index{' + ','.join(map(str, sorted(k))) + '}')
+        I.raise_if(ctx, z3.Not(valid[k]), ValueError, 'invalid-hand@' + I.where(node))
+        if ctx.dead:
+            return None
+        ctx.put(self_ref, ctx.get(self_ref).with_field('_Hand__cards', seq))
+        return None
+
+    def entry_cut(I, ctx, fn, args, kwargs, node):
+        obj = ctx.get(args[0]) if isinstance(args[0], Ref) else args[0].heap[args[0].ref.cell]
+        return SymObj(L.Entry, {'index': index[frozenset(obj.fields['_Hand__cards'])], 'label': Opaque('label')})
+    cuts = {'pokerkit.hands.Hand.__init__': init_cut, 'pokerkit.hands.Hand.entry': entry_cut,
+            'pokerkit.utilities.Card.clean': lambda I, ctx, fn, args, kwargs, node: tuple(models.to_seq(I, ctx, args[-1]))}
+    I = Interp(src, cuts=cuts, unwind=128)
+    hole, board = tuple(range(h)), tuple(range(100, 100 + b))
+    hole2 = hole + ((50,) if extra == 'hole' else ())
+    board2 = board + ((150,) if extra == 'board' else ())
+    owner = c05._owner(cls, 'from_game_or_none')
+    f = src.func(f'pokerkit.hands.{owner}.from_game_or_none')
+    ctx = Ctx()
+    c1 = ctx.fork(); c1.exits = []
+    r1 = I.call_func(c1, f, [cls, hole, board], {})
+    c2 = c1.fork(); c2.exits = []
+    r2 = I.call_func(c2, f, [cls, hole2, board2], {})
+    lt = src.func('contracts.c05.weaker_or_missing')
+    c3 = c2.fork(); c3.exits = []
+    v = I.call_func(c3, lt, [r1, r2], {})
+    goal = I.truth(v, c3)
+    hyp = And_(*I.axioms, c3.pc)
+    if name.endswith('BadugiHand'):
+        # table fact of C04 used by the statement's badugi rule: a badugi of more cards beats one of fewer cards
+        facts = []
+        for k1 in valid:
+            for k2 in valid:
+                if len(k1) > len(k2):
+                    facts.append(z3.Implies(z3.And(valid[k1], valid[k2]), index[k1] < index[k2] if cls.low else index[k1] > index[k2]))
+        hyp = And_(hyp, *facts)
+    ob = Obligation(f'C12/{owner}.from_game/m2-more-cards-never-weaker/{name}-h{h}b{b}+{extra}/I', 'P', hyp, goal, 'C12',
+                    meta={'function': f'pokerkit.hands.{owner}.from_game', 'shape': f'{name} hole={h} board={b} extra {extra} card'})
+    r = discharge(ob, task['timeout_ms'])
+    return {'results': [{'id': ob.id, 'kind': 'P', 'prop': 'C12', 'label': 'D/shape', 'status': r['status'], 'backend': r['backend'],
+                         'seconds': r['seconds'], 'meta': ob.meta}], 'contract': None}
+
+
 def main(argv=None):
     chk = Check('C05', 'proof', argv)
     source(EXTRA)
